@@ -4,6 +4,7 @@ import FormulaeModel.Model.Parser
 import FormulaeModel.Model.Resolver
 import FormulaeModel.Generated.Tables
 import FormulaeModel.Spec.C02
+import FormulaeModel.Spec.C01
 namespace FormulaeModel.Driver.C02
 open Lean FormulaeModel FormulaeModel.Driver FormulaeModel.Terms FormulaeModel.Resolver
 open FormulaeModel.Spec.C02
@@ -44,15 +45,48 @@ factors inside a term produced by `/`, `*`, `:` is not part of it) -/
 def canonTerm (s : String) : String := ":".intercalate ((splitTop ':' s).foldr insertStr [])
 def canonGroup (s : String) : String := "|".intercalate ((splitTop '|' s).map canonTerm)
 
+/-- Spec.C02 on the implementation's output: the denotation of the tree `e` — the DOCUMENTED reading
+of the text, `Spec.C01.refParse` — against the names `model_description` returned -/
+def specJson (e : Expr) (impl : Json) : Json :=
+  match den e with
+  | none => Json.mkObj [("lang", false)]
+  | some d =>
+    let common := (if d.icpt then ["Intercept"] else []) ++ d.common.map stName
+    let group := d.group.map sgName
+    let resp := match d.resp with | some a => Json.str a.name | none => Json.null
+    -- Spec.holds on the implementation's actual output (names)
+    let icRaw := strList impl "common"
+    let igRaw := strList impl "group"
+    let ic := icRaw.map canonTerm
+    let ig := igRaw.map canonGroup
+    let common := common.map canonTerm
+    let group := group.map canonGroup
+    let ir := (impl.getObjVal? "response").toOption.getD Json.null
+    let holds := isSubsetOf ic common && isSubsetOf common ic && isSubsetOf ig group
+      && isSubsetOf group ig && icRaw.length == (Spec.C02.nub icRaw).length
+      && igRaw.length == (Spec.C02.nub igRaw).length && ir == resp
+      && (impl.getObjVal? "err").toOption.isNone
+    Json.mkObj [("lang", true), ("response", resp), ("common", jStrs common),
+                ("group", jStrs group), ("holds", holds)]
+
 def handle (op : String) (j : Json) : Option Json :=
   match op with
   | "c02" =>
     let s := getStr j "s"
+    let impl := (j.getObjVal? "impl").toOption.getD Json.null
     match Scanner.scan s.toList with
     | .error _ => some (Json.mkObj [("parse_err", "scan")])
     | .ok ts =>
+      -- the specification reads the text with the documented precedence table (Spec.C01.refParse);
+      -- the model of the implementation reads it with the table regenerated from parser.py.  On the
+      -- unchanged tree the two tables are equal (Properties/Tie.lean: parser_table)
+      let doc := Spec.C01.refParse ts
       match Parser.parse Generated.parserTable ts with
-      | .error _ => some (Json.mkObj [("parse_err", "parse")])
+      | .error _ =>
+        (match doc with
+         | .ok eS => some (Json.mkObj [("parse_err", "parse"), ("spec", specJson eS impl),
+                                       ("parse_agrees", false)])
+         | .error _ => some (Json.mkObj [("parse_err", "parse")]))
       | .ok e =>
         let model : Json :=
           match describe Generated.resolverOps e with
@@ -69,30 +103,13 @@ def handle (op : String) (j : Json) : Option Json :=
                           | some a, some b => Json.bool (semEq a b)
                           | _, _ => Json.null)]
           | .error er => errJ (errTag er)
-        let spec : Json :=
-          match den e with
-          | none => Json.mkObj [("lang", false)]
-          | some d =>
-            let common := (if d.icpt then ["Intercept"] else []) ++ d.common.map stName
-            let group := d.group.map sgName
-            let resp := match d.resp with | some a => Json.str a.name | none => Json.null
-            -- Spec.holds on the implementation's actual output (names)
-            let impl := (j.getObjVal? "impl").toOption.getD Json.null
-            let icRaw := strList impl "common"
-            let igRaw := strList impl "group"
-            let ic := icRaw.map canonTerm
-            let ig := igRaw.map canonGroup
-            let common := common.map canonTerm
-            let group := group.map canonGroup
-            let ir := (impl.getObjVal? "response").toOption.getD Json.null
-            let holds := isSubsetOf ic common && isSubsetOf common ic && isSubsetOf ig group
-              && isSubsetOf group ig && icRaw.length == (Spec.C02.nub icRaw).length
-              && igRaw.length == (Spec.C02.nub igRaw).length && ir == resp
-              && (impl.getObjVal? "err").toOption.isNone
-            Json.mkObj [("lang", true), ("response", resp), ("common", jStrs common),
-                        ("group", jStrs group), ("holds", holds)]
+        let (spec, agrees) : Json × Bool :=
+          match doc with
+          | .ok eS => (specJson eS impl, eS.sexp == e.sexp && eS.flat == e.flat)
+          | .error _ => (Json.mkObj [("lang", false)], false)    -- not a text of the documented grammar
         some (Json.mkObj [("model", model), ("spec", spec), ("ambiguous_identity", ambiguousIdentity e),
                           ("scanner_shape", implicitOne e || barePipe e),
+                          ("parse_agrees", agrees),
                           ("classes", jStrs (gapClasses Generated.resolverOps e))])
   | _ => none
 
